@@ -13,10 +13,12 @@ CONSTANTS MaxRules
 RuleSetSeq == SetToSeq(RuleSets(MaxRules))
 RoundSeq   == SetToSeq(RoundTripCases)
 InvalidSeq == SetToSeq(InvalidCases)
+PkgListSeq == SetToSeq(PkgListCases)
+NoList     == [vers |-> <<>>, apps |-> <<>>, vflag |-> FALSE, aflag |-> FALSE, route |-> "action"]
 
 NoChart == Chart15("v2", "min", "text", FALSE, "none", "none", FALSE, "top", "text")
 Rec(fam, ch, nm, ver, rules, ign, loadable) ==
-  [fam |-> fam, chart |-> ch, name |-> nm, version |-> ver, rules |-> rules,
+  [fam |-> fam, chart |-> ch, name |-> nm, version |-> ver, rules |-> rules, list |-> NoList,
    universe |-> IF fam = "ignore" THEN SetToSeq(IgnUniverseFiles) ELSE <<>>, ignored |-> ign, loadable |-> loadable,
    expect |-> [saveload |-> ExpectRoundTrip(ch, "archive"), savedir |-> ExpectRoundTrip(ch, "dir"),
                invalid |-> "no-archive", ignore |-> "ignored-absent-kept-present"]]
@@ -28,9 +30,17 @@ CaseSeq ==
   \o [j \in 1..Len(RuleSetSeq) |-> Rec("ignore", NoChart, "ok", "ok", SetToSeq(RuleSetSeq[j]),
                                        SetToSeq(IgnoredSet(RuleSetSeq[j])), Loadable(RuleSetSeq[j]))]
 
-Export == ndJsonSerialize("c15_cases.ndjson", [j \in 1..Len(CaseSeq) |-> CaseSeq[j] @@ [id |-> j]])
+PkgRec(c) == [Rec("pkglist", NoChart, "ok", "ok", <<>>, <<>>, TRUE) EXCEPT
+                 !.list = c,
+                 !.expect = [saveload |-> ExpectRoundTrip(NoChart, "archive"), savedir |-> ExpectRoundTrip(NoChart, "dir"),
+                             invalid |-> "no-archive", ignore |-> "ignored-absent-kept-present"]]
+PkgExpect(c) == [versions |-> [j \in 1..Len(c.vers) |-> ExpPkgVersion(c, j)], apps |-> [j \in 1..Len(c.vers) |-> ExpPkgApp(c, j)]]
+AllSeq == CaseSeq \o [j \in 1..Len(PkgListSeq) |-> PkgRec(PkgListSeq[j])]
+
+Export == ndJsonSerialize("c15_cases.ndjson", [j \in 1..Len(AllSeq) |-> AllSeq[j] @@ [id |-> j, listExpect |-> IF AllSeq[j].fam = "pkglist" THEN PkgExpect(AllSeq[j].list)
+                                                                                       ELSE [versions |-> <<>>, apps |-> <<>>]]])
 ASSUME Export
-ASSUME PrintT(<<"C15CASES", Len(CaseSeq)>>)
+ASSUME PrintT(<<"C15CASES", Len(AllSeq)>>)
 
 (* ----- model-level checks of the ignore semantics: one state per rule set ---------- *)
 VARIABLE k
